@@ -525,6 +525,7 @@ pub fn gen_small(prop: &str, seed: u64, idx: u64) -> (StreamScenario, GenInfo) {
         reads,
         default_read,
         scribble: r.chance(1, 2),
+        vectored: r.chance(1, 3),
         op,
         table,
         closure,
@@ -687,6 +688,7 @@ pub fn gen_big(prop: &str, seed: u64, idx: u64) -> (StreamScenario, GenInfo) {
         reads,
         default_read,
         scribble: r.chance(1, 2),
+        vectored: r.chance(1, 3),
         op,
         table,
         closure: vec![*r.pick(&[ClosureStep::Table, ClosureStep::Echo])],
